@@ -231,7 +231,7 @@ func (x *Exec) refinementTargets(fn *ssa.Function) []*Contract {
 			continue
 		}
 		m := x.ifaceMethod(ic, recv.Type())
-		if m == nil || m.Name() != fn.Name() {
+		if m == nil || m.Name() != fn.Name() || ic.NoRefine {
 			continue
 		}
 		var it *types.Interface
